@@ -186,7 +186,8 @@ def execute(plan: dict[str, Any], mode: str = 'as_planned',
         chooser = sched.PolicyChooser(random.Random(seed), s['policy'],
                                       plan['world'])
     cfg = core.SimCfg(poison=s.get('poison', False),
-                      latency=s.get('latency', 0.0))
+                      latency=s.get('latency', 0.0),
+                      fifo=not s.get('unordered', False))
     sim = core.Sim(plan['world'], chooser, cfg)
     with core.patched():
         status = sim.run(rank_program(plan, sim, mode))
@@ -448,6 +449,7 @@ def gen_comm_plan(rng: random.Random, *, tier: str, symmetric_only: bool,
         'sim': {
             'policy': rng.choice(sched.POLICIES),
             'poison': rng.random() < 0.6,
+            'unordered': rng.random() < 0.3,
             'latency': rng.choice([0.0, 1e-4]),
             'sched_seed': rng.randrange(1 << 30),
         },
